@@ -236,6 +236,7 @@ class Plan:
         self.begin_tag = {}  # client -> tag of the BEGIN of its current transaction
         self.last_tag_at = []  # per observation point: copy of begin_tag
         self.failed = set()  # clients whose transaction is in the failed state
+        self.nfail = {}      # client -> checkout failures so far (checkout_failure_limit)
         for c in range(nclients):
             self.steps.append({"op": "connect", "c": self.name(c), "params": {"user": "u", "database": "p", "application_name": self.name(c)}, "password": "pw"})
         # the first client to connect makes pgcat validate the pool (pool.rs validate(): one bb8 get(), server
@@ -418,10 +419,10 @@ class Plan:
                 self.failed.discard(c)
             else:
                 self.do(("Exchange", c))
-                if c in self.failed:
-                    self.replies.append((nm, t, "aborted_in_txn"))
+                if kind == "stmt_err":
+                    self.replies.append((nm, t, "sql_error_in_txn"))   # the mock's error directive wins over the failed-transaction rule
                 else:
-                    self.replies.append((nm, t, "row_in_txn" if kind == "stmt" else "sql_error_in_txn"))
+                    self.replies.append((nm, t, "aborted_in_txn" if c in self.failed else "row_in_txn"))
                 if kind == "stmt_err":
                     self.failed.add(c)
         elif kind == "abort":
@@ -474,7 +475,11 @@ class Plan:
             # add_connection gives up after connection_timeout (+ its last back-off)
             self.steps.append({"op": "sleep", "ms": to})
         for c in list(self.m.waiters):
-            self.do(("WaitTimeout", c, False))
+            self.nfail[c] = self.nfail.get(c, 0) + 1
+            fatal = bool(self.cfg.get("checkout_failure_limit")) and self.nfail[c] >= self.cfg["checkout_failure_limit"]
+            self.do(("WaitTimeout", c, fatal))
+            if fatal:
+                self.gone_expected += 1
             it = self.intent.pop(c)
             self.replies.append((self.name(c), it["tag"], "pool_error"))
             if c in self.task:
@@ -501,17 +506,19 @@ class Plan:
                 continue
             if st[0] == "NoServer":
                 free_now = bool(m.idleq) or (m.num + m.pending < m.max)
-                out += [("first", c, "begin")] * 4 + [("first", c, "single")] * 2 + [("first", c, "single_err")]
+                out += [("first", c, "begin")] * (6 if free_now or short else 8) + [("first", c, "single")] * 2 + [("first", c, "single_err")]
                 if free_now:
                     out += [("first", c, "srvclose")]
                 if cfg["plugin"]:
                     out += [("first", c, "intercept")] * 2
                 if not free_now and not short and not m.idleq:
-                    out += [("abandon", c)] * 2
-                out += [("outer", c, "X"), ("outer", c, "abort"), ("outer", c, "badclose")]
+                    out += [("abandon", c)] * 3
+                out += [("outer", c, self.rng.choice(["X", "abort", "badclose"]))]
             elif st[0] == "Holding" and st[2] == "InTxn":
                 out += [("txn", c, "stmt")] * 2 + [("txn", c, "stmt_err")] + [("txn", c, "commit")] * 4
                 out += [("txn", c, "abort")] * 2 + [("txn", c, "X"), ("txn", c, "badclose"), ("txn", c, "badclose"), ("txn", c, "srvclose")]
+                if len(m.waiters) >= 2:
+                    out += [("txn", c, "badclose")] * 3 + [("txn", c, "commit")] * 2
                 if cfg.get("statement_timeout"):
                     out += [("txn", c, "stmt_timeout")] * 2
             elif st[0] == "Holding" and st[2] == "IdleHeld":
@@ -596,7 +603,10 @@ def make_toml(cfg):
     user = {"pool_size": cfg["pool_size"]}
     if cfg.get("statement_timeout"):
         user["statement_timeout"] = cfg["statement_timeout"]
-    pool = {"opts": {"pool_mode": "session" if cfg["session"] else "transaction", "query_parser_enabled": bool(cfg["plugin"])},
+    opts = {"pool_mode": "session" if cfg["session"] else "transaction", "query_parser_enabled": bool(cfg["plugin"])}
+    if cfg.get("checkout_failure_limit"):
+        opts["checkout_failure_limit"] = cfg["checkout_failure_limit"]
+    pool = {"opts": opts,
             "users": [user], "shards": [{"servers": [["b0", "primary"]]}]}
     if cfg["plugin"]:
         pool["plugins"] = PLUG
@@ -767,7 +777,7 @@ def gen_plans(run, quick):
             for fifo in (False, True):
                 for to in (6000, 300):
                     cfgs.append({"pool_size": ps, "session": session, "fifo": fifo, "connect_timeout": to, "plugin": False})
-    reps = 2 if quick else 14
+    reps = 6 if quick else 40
     for cfg in cfgs:
         for r in range(reps):
             c = dict(cfg)
@@ -782,7 +792,7 @@ def gen_plans(run, quick):
             if rng.random() < 0.4:
                 n = 2 * c["pool_size"] + 1
             p = Plan(c, rng, n)
-            p.walk(rng.randint(7, 12) if c["connect_timeout"] >= 1000 else rng.randint(5, 8))
+            p.walk(rng.randint(9, 16) if c["connect_timeout"] >= 1000 else rng.randint(5, 8))
             p.finish()
             plans.append(p)
     return plans
@@ -812,6 +822,14 @@ def scripted_plans(run):
         p.first_message(0, "single"); p.observe("r")
         p.first_message(ps, "single"); p.observe("u")
         p.finish(); out.append(p)
+    # checkout_failure_limit: the second failed checkout ends the client task; nothing is held by it
+    p = Plan({"pool_size": 1, "session": False, "fifo": False, "connect_timeout": 300, "plugin": False, "checkout_failure_limit": 2}, rng, 2)
+    p.actions = ["failure_limit"]
+    p.first_message(0, "begin"); p.observe("l0")
+    p.first_message(1, "single"); p.observe("l1w"); p.timeout_waiters(); p.settle(); p.observe("l1")
+    p.first_message(1, "single"); p.observe("l2w"); p.timeout_waiters(); p.settle(); p.observe("l2")
+    p.in_txn(0, "commit"); p.observe("l3")
+    p.finish(); out.append(p)
     # backend down: checkout times out, the connection attempt gives up, later everything works again
     for ps in (1, 2):
         p = Plan({"pool_size": ps, "session": False, "fifo": False, "connect_timeout": 300, "plugin": False}, rng, 2)
@@ -877,8 +895,9 @@ def anchors():
         return ["cannot read source: %s" % e]
     if not re.search(r"\.max_size\(\s*user\.pool_size\s*\)", po):
         bad.append("pool.rs: Pool::builder() no longer has .max_size(user.pool_size)")
-    if not re.search(r"fn has_broken[^}]*is_unclean\(\)", po, re.S):
-        bad.append("pool.rs: has_broken no longer consults is_unclean()")
+    hb = re.search(r"fn has_broken\(.*?\n    \}\n", po, re.S)
+    if not hb or "is_unclean()" not in hb.group(0) or "is_bad()" not in hb.group(0):
+        bad.append("pool.rs: has_broken no longer consults is_bad() and is_unclean()")
     if "let mut reference = connection.0;" not in cl:
         bad.append("client.rs: the checked-out guard is no longer the local `let mut reference = connection.0;`")
     for pat in ("mem::forget", "ManuallyDrop", "Box::leak", ".leak()"):
@@ -888,8 +907,9 @@ def anchors():
     j = cl.find("Releasing server back into the pool", i)
     if i > 0 and j > i:
         n = len(re.findall(r"\bcontinue;", cl[i:j]))
-        if n != 5:
-            bad.append("client.rs: %d `continue;` inside the transaction loop (the model knows 5: Deny/Intercept at Q, Deny/Intercept at S, one in the buffer drain)" % n)
+        if n != 7:
+            bad.append("client.rs: %d `continue;` inside the transaction loop (the model knows 7: Deny and Intercept at Q, Sync during COPY, Deny and Intercept at S, "
+                       "one in the buffer drain, CopyDone/CopyFail outside COPY inside a transaction) — each is a way to stay in the loop holding the server" % n)
     return bad
 
 
@@ -1021,6 +1041,7 @@ def check(run):
     hist = {}
     samples = []
     set_valued = 0
+    wh, rel = {}, {}
     for pi, (p, res) in enumerate(zip(plans, results)):
         d = plan_dict(p)
         mv = mirror_views(p)
@@ -1040,10 +1061,20 @@ def check(run):
         evals += len(p.obs)
         for a in p.actions:
             a = tuple(a) if isinstance(a, (list, tuple)) else (a,)
-            key = a[0] if a[0] in ("blip", "timeout", "abandon", "rotation", "f14", "down") else (a[0], a[-1])
+            key = a[0] if a[0] in ("blip", "timeout", "abandon", "rotation", "f14", "down", "failure_limit") else (a[0], a[-1])
             hist[str(key)] = hist.get(str(key), 0) + 1
         for k, o in enumerate(p.ops):
             distinct.add((p.cfg["pool_size"], p.cfg["session"], p.cfg["fifo"], tuple(o[:1] + o[2:]) if len(o) > 2 else o[:1], canon_view(views[k][1])[0:2], len(views[k][1][3][0])))
+        for o in p.obs:
+            if o["nops"] > 0:
+                vw = views[o["nops"] - 1][1]
+                nw = len(vw[3][0]) + len(vw[3][1])
+                wh[min(nw, 3)] = wh.get(min(nw, 3), 0) + 1
+        for k, o in enumerate(p.ops):
+            if o[0] in ("TxnEndRelease", "ExitHolding") and k > 0:
+                prev = views[k - 1][1]
+                key = ("broken" if o[-1] else "clean") + "-release-with-%s-waiters" % min(len(prev[3][0]), 2)
+                rel[key] = rel.get(key, 0) + 1
         if f14:
             f14_confirmed.append((pi, f14))
         monitor_hits = [x for x in problems if x[0].startswith("monitor")]
@@ -1093,6 +1124,8 @@ def check(run):
     run.cov["evaluations"] = evals
     run.cov["distinct_nontrivial"] = len(distinct)
     run.cov["set_valued_observations"] = set_valued
+    run.cov["observation_points_by_waiters"] = {("%d%s" % (k, "+" if k == 3 else "")): v for k, v in sorted(wh.items())}
+    run.cov["releases"] = rel
     run.cov["scenarios"] = len(plans)
     run.cov["model_ops"] = sum(len(p.ops) for p in plans)
     run.cov["observation_points"] = sum(len(p.obs) for p in plans)
